@@ -1134,17 +1134,38 @@ static C14_SET_WEIGHTS: &[(u16, u32)] = &[
     (st::SWAP, 2),
 ];
 
+// HashMap<E, E> / HashSet<E> over the element-layout family (zero-sized, over-aligned, 400-byte pairs): the life-cycle
+// operation creates entry / entry_ref / raw entry / rustc_entry objects for present and absent keys at every load
+static C14_LAY_WEIGHTS: &[(u16, u32)] = &[(ly::INSERT, 18), (ly::REMOVE, 8), (ly::LIFE, 24), (ly::GET, 6), (ly::FILL_TO_CAPACITY, 5), (ly::REMOVE_RUN, 6), (ly::RETAIN, 2)];
+
 fn c14_strategy(tier: Tier) -> BoxedStrategy<Case> {
+    use proptest::prelude::*;
     let n = if tier == Tier::Quick { 100 } else { 300 };
+    let lay = lay_case_strategy(LayGen { prop: 14, weights: C14_LAY_WEIGHTS, max_ops: n, generic_pct: 20 })
+        .prop_map(|mut c| {
+            if c.h("coll") == 0 {
+                c.set("coll", 2);
+            }
+            c
+        })
+        .boxed();
     union2(
-        map_case_strategy(MapGen { prop: 14, weights: C14_WEIGHTS, max_ops: n, generic_pct: 20, plain_pct: 30 }),
-        5,
-        set_case_strategy(SetGen { prop: 14, weights: C14_SET_WEIGHTS, max_ops: n, generic_pct: 20, plain_pct: 30 }),
+        union2(
+            map_case_strategy(MapGen { prop: 14, weights: C14_WEIGHTS, max_ops: n, generic_pct: 20, plain_pct: 30 }),
+            5,
+            set_case_strategy(SetGen { prop: 14, weights: C14_SET_WEIGHTS, max_ops: n, generic_pct: 20, plain_pct: 30 }),
+            1,
+        ),
+        10,
+        lay,
         1,
     )
 }
 
-fn c14_nontrivial(_c: &Case, o: &Outcome) -> bool {
+fn c14_nontrivial(c: &Case, o: &Outcome) -> bool {
+    if c.kind == "lay" {
+        return o.steps >= 6;
+    }
     o.labels & (L_ENTRY_AT_FULL | L_PROBE_TOMB) != 0
 }
 
